@@ -230,8 +230,13 @@ func (c *c17Any) inner() Case {
 }
 func (c *c17Any) Exec()                  { c.inner().Exec() }
 func (c *c17Any) Oracle() (bool, string) { return c.inner().Oracle() }
-func (c *c17Any) Sx() string             { return c.inner().Sx() }
-func (c *c17Any) Nontrivial() bool       { return c.inner().Nontrivial() }
+func (c *c17Any) Sx() string {
+	if c.Crash != nil {
+		return "" // crash images are compared with Fs/Crash.v by the C02 check; here the oracle judges them
+	}
+	return c.inner().Sx()
+}
+func (c *c17Any) Nontrivial() bool { return c.inner().Nontrivial() }
 func (c *c17Any) Kind() string {
 	if c.Crash != nil {
 		return "crash/" + c.Crash.Kind()
@@ -249,7 +254,7 @@ func (c *c17Any) Evals() int {
 // accepted ones; every kill image must re-open and show no trace of the rejected calls
 func genC17Crash(r *rand.Rand) *c02Case {
 	keys := [][]byte{[]byte("a"), []byte("b"), []byte("c")}
-	c := &c02Case{Keys: keys}
+	c := &c02Case{Keys: keys, NoAbs: true}
 	c.Opts = dbOpts{MemstoreBytes: 1 << 30, Threshold: 10, MaxSize: 5 << 30, RatioPct: 100, WBuf: 4096, RBuf: 4096}
 	for j := 0; j < 10+r.Intn(6); j++ {
 		k := keys[r.Intn(len(keys))]
@@ -288,7 +293,7 @@ func init() {
 			}
 			return out
 		},
-		New: func() Case { return &c17Any{} },
+		New:  func() Case { return &c17Any{} },
 		Rule: "programs mixing accepted and rejected calls through both API flavours: keys/values nil, empty, non-UTF-8, 64 KiB and longer, marker bytes, the empty key; observed directly, after forced rotation+flush, after clean reopen; plus sessions with rejected calls run under strace whose every kill image is re-opened (C02 machinery). Non-trivial: >=1 rejected and >=2 accepted puts.",
 		Shrink: func(cs Case) []Case {
 			a := cs.(*c17Any)
